@@ -2,7 +2,9 @@
 
 pub mod c11;
 pub mod c12;
+pub mod c13;
 pub mod c15;
+pub mod c17;
 
 use crate::report::Violation;
 
@@ -14,7 +16,9 @@ pub fn check(id: &str, tier: &str) -> i32 {
     match id {
         "C11" => c11::check(tier),
         "C12" => c12::check(tier),
+        "C13" => c13::check(tier),
         "C15" => c15::check(tier),
+        "C17" => c17::check(tier),
         _ => {
             eprintln!("MACHINERY-ERROR: no check for {id}");
             2
@@ -26,7 +30,9 @@ pub fn replay(v: &Violation) -> i32 {
     match v.property.as_str() {
         "C11" => c11::replay(v),
         "C12" => c12::replay(v),
+        "C13" => c13::replay(v),
         "C15" => c15::replay(v),
+        "C17" => c17::replay(v),
         _ => {
             eprintln!("MACHINERY-ERROR: no replay for {}", v.property);
             2
